@@ -13,5 +13,6 @@ CONSTANTS
   FixCommonSnapshot = TRUE
   GenDepth = 9
   GenHistory = FALSE
+  GenReject = FALSE
 INVARIANT EmitLoad
 CHECK_DEADLOCK FALSE
